@@ -484,12 +484,26 @@ def probe(ctx):
                 ctx.probe_ok(('rp', n, want, seed))
     # batched conversions: values are bits, agree with the single-item path, and round-trip
     nprng = np.random.default_rng(ctx.np_seed + 17)
-    for n in ([4, 5, 6, 9, 12] if ctx.quick() else [3, 4, 5, 6, 7, 8, 9, 12, 16, 20, 31]):
+    for n in ([4, 5, 6, 9, 12, 27, 31] if ctx.quick() else [3, 4, 5, 6, 7, 8, 9, 12, 16, 20, 26, 27, 28, 29, 30, 31]):
         k = 64 if ctx.quick() else 400
         # Y-heavy strings exercise the phase bookkeeping (x.z up to n)
         strs = np.array([''.join(nprng.choice(list('IXYZ'), size=n, p=[0.15, 0.15, 0.55, 0.15])) for _ in range(k)])
         idx = G.pauli_str_to_index(strs)
         batched_roundtrip(ctx, G, n, idx, strs)
+        # whole-batch F2 -> index (shapes (k,) and (k//2, 2)) against the index computed from the string by plain integer arithmetic
+        # (seeded C08-m7: a float64 matmul in the batched branch rounds indices beyond 2^53, n >= 27 only)
+        want = [sum('IXYZ'.index(c) * 4 ** (n - 1 - j) for j, c in enumerate(s_)) for s_ in strs.tolist()]
+        Fb = np.stack([G.pauli_str_to_F2(s_) for s_ in strs.tolist()])
+        for shp in ((k,), (k // 2, 2)):
+            got = guarded(lambda: np.asarray(G.pauli_F2_to_index(Fb.reshape(shp + (2 * n + 2,)), with_sign=True)).reshape(-1).tolist())
+            bad = None if isinstance(got, str) else next((j for j in range(k) if int(got[j]) != want[j]), None)
+            if isinstance(got, str):
+                ctx.fail('batched-F2-to-index', f'pauli_F2_to_index(batch {shp}) raised {got} (n={n})', dict(op='batched-F2-to-index', n=n, shape=list(shp), string=strs[0]))
+            elif bad is not None:
+                ctx.fail('batched-F2-to-index', f'pauli_F2_to_index(batch {shp}) returns {got[bad]} for {strs[bad]} (n={n}), the index of that string is {want[bad]}',
+                         dict(op='batched-F2-to-index', n=n, shape=list(shp), string=str(strs[bad]), F2=bits(Fb[bad]), expected=want[bad], got=int(got[bad])))
+            else:
+                ctx.probe_ok(('bf2i', n, shp))
     # single-item conversions for larger n: index -> F2 -> index, index -> str -> index, F2 -> str -> F2
     for _ in range(150 if ctx.quick() else 1500):
         n = rng.randint(3, 14)
@@ -728,6 +742,15 @@ def search(ctx, hints):
             n, i1 = int(t[2]), int(t[3])
             s1 = _nq.gate.pauli_index_to_str(i1, n)
             batched_roundtrip(ctx, _nq.gate, n, np.array([i1, i1]), np.array([s1, s1]))
+        if len(t) >= 4 and t[1] in ('toindex', 'toindexns') and len(t[3]) in (2 * int(t[2]), 2 * int(t[2]) + 2):
+            # batched F2 -> index of exactly this operator against the index computed from its string
+            n = int(t[2]); f = f2arr(t[3] if len(t[3]) == 2 * n + 2 else '00' + t[3])
+            s0, _ = _nq.gate.pauli_F2_to_str(f)
+            w = sum('IXYZ'.index(c) * 4 ** (n - 1 - j) for j, c in enumerate(s0))
+            got = guarded(lambda: [int(x) for x in np.asarray(_nq.gate.pauli_F2_to_index(np.stack([f, f]), with_sign=True)).tolist()])
+            if isinstance(got, str) or got != [w, w]:
+                ctx.fail('batched-F2-to-index', f'pauli_F2_to_index(batch of 2) returns {got} for {s0} (n={n}), the index of that string is {w}',
+                         dict(op='batched-F2-to-index', n=n, shape=[2], string=s0, F2=bits(f), expected=w))
         if len(t) >= 4 and t[1] == 'toindex' and len(t[3]) == 2 * int(t[2]) + 2:
             # the index of this operator, computed from its string, back through the single-item round trip
             s0, _ = _nq.gate.pauli_F2_to_str(f2arr(t[3]))
